@@ -322,6 +322,44 @@ type deepRow struct {
 }
 
 var deepRows = []deepRow{
+	// contextual keywords and rarely used heads in front of an opening bracket (each takes its own path through the parser)
+	{"jsparse", "", "async(", "a", ")", "", ""},
+	{"jsparse", "", "(async(", "a", "))", "", ""},
+	{"jsparse", "", "async(a,", "a", ")", "", ""},
+	{"jsparse", "x=", "async(...", "a", ")", "", ""},
+	{"jsparse", "", "async(x=", "a", ")", "", ""},
+	{"jsparse", "", "[async(", "a", ")]", "", ""},
+	{"jsparse", "", "import(", "a", ")", "", ""},
+	{"jsparse", "", "a?.(", "a", ")", "", ""},
+	{"jsparse", "", "a?.[", "a", "]", "", ""},
+	{"jsparse", "", "a?.b(", "a", ")", "", ""},
+	{"jsparse", "function*g(){", "yield(", "a", ")", "}", ""},
+	{"jsparse", "function*g(){", "yield*", "a", "", "}", ""},
+	{"jsparse", "async function g(){", "await(", "a", ")", "}", ""},
+	{"jsparse", "class A extends B{m(){", "super.m(", "a", ")", "}}", ""},
+	{"jsparse", "", "new.target(", "a", ")", "", ""},
+	{"jsparse", "", "a`${", "a", "}`", "", ""},
+	{"jsparse", "", "(a,", "a", ")", "", ""},
+	{"jsparse", "", "({a,b:", "a", "})", "", ""},
+	{"jsparse", "", "([a,", "a", "])", "", ""},
+	{"jsparse", "", "(...", "a", ")", "", ""},
+	{"jsparse", "", "async x=>", "a", "", "", ""},
+	{"jsparse", "", "(a=", "a", ")", "", ""},
+	{"jsparse", "", "({[", "a", "]:1})", "", ""},
+	{"jsparse", "", "class A{[", "a", "](){}}", "", ""},
+	{"jsparse", "", "class A{static{", "a", "}}", "", ""},
+	{"jsparse", "", "class A{x=", "a", "}", "", ""},
+	{"jsparse", "", "for(;;)", "a", "", "", ""},
+	{"jsparse", "", "for(a of b)", "a", "", "", ""},
+	{"jsparse", "", "for(a in ", "a", ");", "", ""},
+	{"jsparse", "", "while(a)", "a", "", "", ""},
+	{"jsparse", "", "do ", "a", ";while(a)", "", ""},
+	{"jsparse", "", "with(a)", "a", "", "", ""},
+	{"jsparse", "", "switch(a){case ", "a", ":}", "", ""},
+	{"jsparse", "", "switch(a){default:", "a", "}", "", ""},
+	{"jsparse", "", "try{", "a", "}finally{}", "", ""},
+	{"jsparse", "", "try{}catch{", "a", "}", "", ""},
+	{"jsparse", "", "export default ", "a", "", "", ""},
 	{"jsparse", "", "(", "a", ")", "", ""},
 	{"jsparse", "", "[", "a", "]", "", ""},
 	{"jsparse", "", "{", "a", "}", "", ""},
